@@ -1,13 +1,12 @@
 import NomtModel.Api.PageRegionModel
-import NomtModel.Api.Shards
 import NomtModel.Core.PageIdOrder
 /-!
 # What a `PageRegion` owns
 
 * `from_page_id(p)` owns exactly the descendants of `p` (including `p`);
 * `from_page_id_descendants(p, lo, hi)` owns exactly the descendants of the children `lo … hi` of `p`;
-* the regions of distinct children are mutually exclusive and together with `p` itself cover the region of `p`;
-* the shard regions of the page cache: every non-root page is owned by exactly the shard `shard_index_for` names.
+* the regions of distinct children are mutually exclusive and together with `p` itself cover the region of `p`.
+(The shard regions of the page cache: `Api/ShardRegionsTable.lean`.)
 -/
 namespace Nomt.TriePos
 
@@ -170,77 +169,5 @@ theorem region_partition (p q : PageId) (hp : p.length < MAX_PAGE_DEPTH) (hq : P
         rw [List.append_assoc] at this
         exact List.append_cancel_left this
       injection this
-
-/-! ## the shard regions of the page cache -/
-
-/-- the finite table: `shard_regions n` is the list of descendants-regions of the root over the child ranges of
-`Shards.region`, `shard_index_for` is `Shards.indexFor`, and a child index lies in range `i` iff `i` is its index -/
-def shardTableOk (n : Nat) : Bool :=
-  match shardRegions n with
-  | none => false
-  | some rs =>
-    rs.length == n &&
-    ((List.range n).all fun i =>
-      match rs[i]? with
-      | some (r, c) =>
-        let sc := Shards.region n i
-        c == sc.2 && decide (1 ≤ sc.2) && decide (sc.1 + sc.2 ≤ 64) &&
-        r == ⟨[], some [sc.1], maxDescendant [sc.1 + sc.2 - 1]⟩ &&
-        ((List.range 64).all fun a => decide (sc.1 ≤ a ∧ a ≤ sc.1 + sc.2 - 1) == (Shards.indexFor n a == i))
-      | none => false) &&
-    ((List.range 64).all fun a => shardIndexFor n a == some (Shards.indexFor n a) && decide (Shards.indexFor n a < n))
-
-theorem shardTable : ∀ n, 1 ≤ n → n ≤ 64 → shardTableOk n = true := by
-  have table : (List.range 65).all (fun n => n == 0 || shardTableOk n) = true := by decide +kernel
-  intro n h1 h64
-  have := List.all_eq_true.mp table n (List.mem_range.mpr (by omega))
-  have hn0 : (n == 0) = false := by simp; omega
-  simpa [hn0] using this
-
-/-- **ownership of pages by shards**: for `1 ≤ n ≤ 64` shards, a non-root page `a :: t` is owned exclusively by the
-region of shard `i` iff `i = shard_index_for(n, a)` (the `debug_assert!` of `PageCache::shard_index_for`) -/
-theorem shard_owner (n : Nat) (h1 : 1 ≤ n) (h64 : n ≤ 64) (a : Nat) (t : PageId) (hq : PidOk (a :: t)) :
-    ∃ rs, shardRegions n = some rs ∧ rs.length = n ∧ shardIndexFor n a = some (Shards.indexFor n a) ∧
-      Shards.indexFor n a < n ∧
-      ∀ i r c, rs[i]? = some (r, c) → (r.containsExclusive (a :: t) = true ↔ i = Shards.indexFor n a) := by
-  have ha : a < 64 := hq.1 a (by simp)
-  have ht := shardTable n h1 h64
-  unfold shardTableOk at ht
-  cases hrs : shardRegions n with
-  | none => rw [hrs] at ht; cases ht
-  | some rs =>
-    rw [hrs] at ht
-    simp only [Bool.and_eq_true, beq_iff_eq, List.all_eq_true, List.mem_range, decide_eq_true_eq] at ht
-    obtain ⟨⟨hlen, hall⟩, hidx⟩ := ht
-    refine ⟨rs, rfl, hlen, (hidx a ha).1, (hidx a ha).2, ?_⟩
-    intro i r c hi
-    have hilt : i < n := by
-      rw [← hlen]
-      exact (List.getElem?_eq_some_iff.mp hi).1
-    have := hall i hilt
-    rw [hi] at this
-    simp only [Bool.and_eq_true, beq_iff_eq, List.all_eq_true, List.mem_range, decide_eq_true_eq] at this
-    obtain ⟨⟨⟨⟨_, hc1⟩, hc64⟩, hr⟩, hrange⟩ := this
-    rw [hr]
-    have hce := containsExclusive_descendants [] (a :: t) (Shards.region n i).1
-      ((Shards.region n i).1 + (Shards.region n i).2 - 1) (by simp [MAX_PAGE_DEPTH]) (by omega) hq
-    simp only [List.nil_append] at hce
-    rw [hce]
-    have hr' := hrange a ha
-    constructor
-    · rintro ⟨c', t', he, hlo, hhi⟩
-      injection he with he1 he2
-      subst he1
-      have : decide ((Shards.region n i).1 ≤ a ∧ a ≤ (Shards.region n i).1 + (Shards.region n i).2 - 1) = true := by
-        simp; exact ⟨hlo, hhi⟩
-      rw [this] at hr'
-      have := hr'.symm
-      simp at this
-      exact this.symm
-    · intro he
-      have : (Shards.indexFor n a == i) = true := by simp [he]
-      rw [this] at hr'
-      simp at hr'
-      exact ⟨a, t, rfl, hr'.1, hr'.2⟩
 
 end Nomt.TriePos
